@@ -1098,12 +1098,18 @@ def frame_oracle(ctx, case, world, spec, src, dest, dist, payload):
 def send_and_check(ctx, world, spec, case, sidx, dest, dist, payloads=(PAYLOAD,), check=True):
     """originate at station index sidx (one packet per payload, back to back), settle, evaluate the
     property for every payload; returns the ups of the first payload"""
-    src = spec["stations"][sidx]
-    node = world.nodes[sidx]
+    res = group_send_and_check(ctx, world, spec, case, [(sidx, dest, pl) for pl in payloads], dist, check=check)
+    return None if res is None else res[0]
+
+
+def group_send_and_check(ctx, world, spec, case, items, dist, check=True):
+    """items = [(station index, destination, payload)] with pairwise different payloads: ALL are
+    submitted in the same instant, then the internetwork runs to quiescence and the property is
+    evaluated for every packet separately (told apart by payload); returns [ups per item]"""
     marks = [len(n.log) for n in world.nodes]
     world.frames = []
-    for pl in payloads:
-        node.send(dest, False, 0, pl)
+    for sidx, dest, pl in items:
+        world.nodes[sidx].send(dest, False, 0, pl)
     ok = world.settle()
     if not ok:
         ctx.fail("no-quiescence", case, "the internetwork did not become quiet", clause="forwarding_terminates")
@@ -1115,37 +1121,78 @@ def send_and_check(ctx, world, spec, case, sidx, dest, dist, payloads=(PAYLOAD,)
     if bad:
         ctx.fail("exception", case, "exception in a node: %r" % (bad[:3],))
     allgot = collect_ups(world, marks)
-    first = None
-    for payload in payloads:
+    out = []
+    for sidx, dest, payload in items:
+        src = spec["stations"][sidx]
+        node = world.nodes[sidx]
         got = {k: [u for u in v if u["data"] == payload] for k, v in allgot.items()}
         got = {k: v for k, v in got.items() if v}
-        if first is None:
-            first = got
+        out.append(got)
         if not check:
             continue
+        pcase = case if len(items) == 1 else dict(case, packet=[sidx, dest, payload])
         want = expected(spec, src, dest, node.adapters[0].adapterNet is not None)
         for key in set(want) | set(got):
             ups = got.get(key, [])
             if key not in want:
-                ctx.fail("stray-delivery", case, "station %r received %d copies, expected none" % (key, len(ups)),
+                ctx.fail("stray-delivery", pcase, "station %r received %d copies, expected none" % (key, len(ups)),
                          clause="exactly", station=list(key))
                 continue
             if len(ups) != 1:
-                ctx.fail("delivery-count", case, "station %r received %d copies of %s, expected 1" % (key, len(ups), payload),
+                ctx.fail("delivery-count", pcase, "station %r received %d copies of %s, expected 1" % (key, len(ups), payload),
                          clause="once", station=list(key), count=len(ups))
                 continue
             u = ups[0]
             if u["src"] != want[key][0]:
-                ctx.fail("source-shown", case, "station %r sees source %r, expected %r" % (key, u["src"], want[key][0]),
+                ctx.fail("source-shown", pcase, "station %r sees source %r, expected %r" % (key, u["src"], want[key][0]),
                          clause="source_shown")
             if u["dst"] != want[key][1]:
-                ctx.fail("destination-shown", case, "station %r sees destination %r, expected %r" % (key, u["dst"], want[key][1]),
+                ctx.fail("destination-shown", pcase, "station %r sees destination %r, expected %r" % (key, u["dst"], want[key][1]),
                          clause="destination_shown")
-        frame_oracle(ctx, case, world, spec, src, dest, dist, payload)
-    stray = [u for v in allgot.values() for u in v if u["data"] not in payloads]
+        frame_oracle(ctx, pcase, world, spec, src, dest, dist, payload)
+    sent = {pl for _, _, pl in items}
+    stray = [u for v in allgot.values() for u in v if u["data"] not in sent]
     if stray and check:
         ctx.fail("payload", case, "a payload nobody sent was delivered: %r" % (stray[:1],), clause="payload")
-    return first
+    return out
+
+
+def do_replies(ctx, vt, world, spec, sc, case, sidx, got):
+    """every recipient (up to max_replies) answers the source it was shown; False = world unusable"""
+    recips = sorted(got)
+    for key in recips[: sc.get("max_replies", 3)]:
+        ups = got[key]
+        if len(ups) != 1:
+            continue
+        ridx = world.station_idx[key]
+        back = ups[0]["src"]
+        rcase = dict(case, reply_from=list(key), reply_to=back)
+        marks = [len(n.log) for n in world.nodes]
+        world.frames = []
+        world.nodes[ridx].send(back, False, 0, "200108")
+        if not world.settle():
+            ctx.fail("no-quiescence", rcase, "reply: the internetwork did not become quiet")
+            return False
+        rgot = collect_ups(world, marks)
+        okey = (spec["stations"][sidx][0], spec["stations"][sidx][1])
+        for rk in set(rgot) | {okey}:
+            n = len(rgot.get(rk, []))
+            if rk == okey and n != 1:
+                ctx.fail("reply-lost", rcase, "the reply reached the originator %d times" % n,
+                         clause="reply_routable", count=n)
+            elif rk != okey and n:
+                ctx.fail("reply-stray", rcase, "the reply reached %r" % (rk,), clause="reply_routable")
+        for u in rgot.get(okey, []):
+            want = ["ls", key[1]] if key[0] == okey[0] else ["rs", key[0], key[1]]
+            if u["src"] != want:
+                ctx.fail("source-shown", rcase, "reply source %r, expected %r" % (u["src"], want),
+                         clause="source_shown")
+        bad = errors_in_logs(world, marks)
+        if bad or vt.errors:
+            ctx.fail("exception", rcase, "exception while replying: %r %r" % (bad[:2], vt.errors[:2]))
+            vt.errors = []
+        ctx.count("e2e-reply", (sc["cache_mode"], back[0]))
+    return True
 
 
 def dest_choices(spec, sidx):
@@ -1204,6 +1251,19 @@ def run_tree_scenario(ctx, vt, sc, node_lockstep=True):
             world.prepare()
             if sc["learn"]:
                 world.learn_numbers()
+        if sidx == -1:
+            # concurrent step: several packets submitted in the same instant
+            items = [(si, d, bytes([0x10, 8, 0xC0 + j, k]).hex()) for j, (si, d) in enumerate(dest)]
+            res = group_send_and_check(ctx, world, spec, case, items, dist)
+            ctx.count("e2e-history-concurrent", (len(items), tuple(sorted(d[0] for _, d, _ in items)), min(k, 3)))
+            if res is None:
+                world = None
+                continue
+            if sc.get("reply", True):
+                for (si, d, pl), got in zip(items, res):
+                    if world is not None and not do_replies(ctx, vt, world, spec, sc, dict(case, packet=[si, d, pl]), si, got):
+                        world = None
+            continue
         topo = world.topo_request() if sc["cache_mode"] != "cold" or dest[0] in ("gb", "lb", "ls") else None
         burst = bool(sc.get("burst")) and k % 2 == 1
         case["burst"] = burst
@@ -1218,40 +1278,8 @@ def run_tree_scenario(ctx, vt, sc, node_lockstep=True):
             global_compare(ctx, world, spec, sidx, dest, got, topo, "tree-" + sc["cache_mode"])
         # replies: every recipient answers the source it was shown
         if sc.get("reply", True):
-            recips = sorted(got)
-            for key in recips[: sc.get("max_replies", 3)]:
-                ups = got[key]
-                if len(ups) != 1:
-                    continue
-                ridx = world.station_idx[key]
-                back = ups[0]["src"]
-                rcase = dict(case, reply_from=list(key), reply_to=back)
-                marks = [len(n.log) for n in world.nodes]
-                world.frames = []
-                world.nodes[ridx].send(back, False, 0, "200108")
-                if not world.settle():
-                    ctx.fail("no-quiescence", rcase, "reply: the internetwork did not become quiet")
-                    world = None
-                    break
-                rgot = collect_ups(world, marks)
-                okey = (spec["stations"][sidx][0], spec["stations"][sidx][1])
-                for rk in set(rgot) | {okey}:
-                    n = len(rgot.get(rk, []))
-                    if rk == okey and n != 1:
-                        ctx.fail("reply-lost", rcase, "the reply reached the originator %d times" % n,
-                                 clause="reply_routable", count=n)
-                    elif rk != okey and n:
-                        ctx.fail("reply-stray", rcase, "the reply reached %r" % (rk,), clause="reply_routable")
-                for u in rgot.get(okey, []):
-                    want = ["ls", key[1]] if key[0] == okey[0] else ["rs", key[0], key[1]]
-                    if u["src"] != want:
-                        ctx.fail("source-shown", rcase, "reply source %r, expected %r" % (u["src"], want),
-                                 clause="source_shown")
-                bad = errors_in_logs(world, marks)
-                if bad or vt.errors:
-                    ctx.fail("exception", rcase, "exception while replying: %r %r" % (bad[:2], vt.errors[:2]))
-                    vt.errors = []
-                ctx.count("e2e-reply", (sc["cache_mode"], back[0]))
+            if not do_replies(ctx, vt, world, spec, sc, case, sidx, got):
+                world = None
     if node_lockstep:
         for w in worlds:
             compare_logs(ctx, "e2e-node", w.nodes, {"kind": "e2e", "spec": spec, "cache_mode": sc["cache_mode"],
@@ -1313,6 +1341,45 @@ def gen_history_scenario(ctx, rng):
         far = [d for d in choices if d[0] in ("rs", "rb") and d[1] != st[si][0]]
         dest = rng.choice(far) if far and rng.random() < 0.7 else rng.choice(choices)
         sends.append((si, dest))
+    # concurrent steps: 2..4 packets submitted in the same instant (entry (-1, [[station, dest], ..]))
+    first, dist = next_hops(spec)
+
+    def group():
+        r = rng.random()
+        pairs = [(a, c) for a in range(len(st)) for c in range(len(st))
+                 if a != c and dist[(st[a][0], st[c][0])] >= 2]
+        if r < 0.45 and pairs:
+            # crossing discoveries: two stations >= 2 routers apart address each other
+            a, c = rng.choice(pairs)
+            g = [[a, ["rs", st[c][0], st[c][1]] if rng.random() < 0.7 else ["rb", st[c][0]]],
+                 [c, ["rs", st[a][0], st[a][1]] if rng.random() < 0.7 else ["rb", st[a][0]]]]
+            if rng.random() < 0.3:
+                b = rng.randrange(len(st))
+                g.append([b, rng.choice(dest_choices(spec, b))])
+            return g
+        if r < 0.7:
+            # several stations to one far station
+            t = rng.randrange(len(st))
+            srcs = [i for i in range(len(st)) if st[i][0] != st[t][0]]
+            rng.shuffle(srcs)
+            g = [[i, ["rs", st[t][0], st[t][1]]] for i in srcs[:rng.choice([2, 3, 4])]]
+            if len(g) >= 2:
+                return g
+        # mixes: unicasts and broadcasts from different stations
+        g = []
+        for i in rng.sample(range(len(st)), min(len(st), rng.choice([2, 3, 4]))):
+            g.append([i, rng.choice(dest_choices(spec, i))])
+        return g if len(g) >= 2 else None
+    if len(st) >= 2 and rng.random() < 0.75:
+        g = group()
+        if g:
+            # mostly as the very first step: the discoveries only cross while everything is cold
+            pos = 0 if rng.random() < 0.6 else rng.randrange(len(sends) + 1)
+            sends.insert(pos, (-1, g))
+        if rng.random() < 0.4:
+            g = group()
+            if g:
+                sends.insert(rng.randrange(len(sends) + 1), (-1, g))
     return {"spec": spec, "cache_mode": "cold", "learn": False, "history": True, "sends": sends[:10],
             "burst": rng.random() < 0.3, "reply": True, "max_replies": 2, "shape": shape}
 
